@@ -2126,7 +2126,7 @@ def with_conditions(node, stack=()):
             yield r
 
 
-def asserted(stack, pred):
+def asserted(stack, pred, defs=None):
     """True when some `if` entry of a with_conditions stack asserts -- on this path -- a condition whose un-negated core satisfies pred (the `t` branch of
     `if c`, the `e` branch / the code after `if !c { diverge }` of `if !c`)"""
     for ent in stack:
@@ -2134,9 +2134,14 @@ def asserted(stack, pred):
             continue
         c, br = strip(ent[1]), ent[2]
         neg = False
-        while isinstance(c, dict) and c.get("k") == "un" and c.get("op") == "Not":
-            neg = not neg
-            c = strip(c["e"])
+        for _ in range(6):
+            if isinstance(c, dict) and c.get("k") == "un" and c.get("op") == "Not":
+                neg = not neg
+                c = strip(c["e"])
+            elif defs is not None and isinstance(c, dict) and c.get("k") == "local" and (defs.get(c.get("id")) or (None,))[0] == "expr":
+                c = strip(defs[c["id"]][1])     # a test held in a local (`let ok = pred(x); if ok {..}`)
+            else:
+                break
         if isinstance(c, dict) and pred(c) and ((br == "t") != neg):
             return True
     return False
